@@ -1059,8 +1059,9 @@ func cacheProtocolRule(P *Program, R *Report) {
 				if staticCallee(c) != cons {
 					continue
 				}
-				sites = append(sites, FuncKey(fn))
-				if FuncKey(fn) != kCredBuilder {
+				// (a new helper with one call site that only hands the builder on belongs to the function that calls it)
+				sites = append(sites, FuncKey(ownerOf(P, fn)))
+				if FuncKey(ownerOf(P, fn)) != kCredBuilder {
 					ok = false
 				}
 				call := c.(*ssa.Call)
@@ -1069,10 +1070,10 @@ func cacheProtocolRule(P *Program, R *Report) {
 					if !isEx || ex.Index != 0 {
 						continue
 					}
-					for _, rr := range referrersOf(ex) {
-						switch u := rr.(type) {
+					for _, u := range usesThroughReturns(P, ex, 2) {
+						switch w := u.(type) {
 						case *ssa.Store:
-							if desc(u.Addr) != nbD+".nonrevBuilder" {
+							if desc(w.Addr) != nbD+".nonrevBuilder" {
 								ok = false
 							}
 						case *ssa.DebugRef:
@@ -1523,6 +1524,52 @@ func structCopyFields(st *ssa.Store) []copiedField {
 	for j := 0; j < stt.NumFields(); j++ {
 		if v := structFieldValue(ld, j); v != nil {
 			out = append(out, copiedField{target: desc(&ssa.FieldAddr{X: st.Addr, Field: j}), val: v, field: j})
+		}
+	}
+	return out
+}
+
+// usesThroughReturns: the instructions that use v, where a `return` of v from a new unexported helper (one the
+// reference tree does not have) is replaced by the uses of that result at the helper's call sites.
+func usesThroughReturns(P *Program, v ssa.Value, depth int) []ssa.Instruction {
+	var out []ssa.Instruction
+	for _, r := range referrersOf(v) {
+		ret, isRet := r.(*ssa.Return)
+		g := r.Parent()
+		if !isRet || depth <= 0 || !newHelper(g) {
+			out = append(out, r)
+			continue
+		}
+		k := -1
+		for i, rv := range ret.Results {
+			if rv == v {
+				k = i
+			}
+		}
+		if k < 0 {
+			out = append(out, r)
+			continue
+		}
+		for _, caller := range P.AllFuncs {
+			if caller.Blocks == nil {
+				continue
+			}
+			for _, ci := range callsTo(caller, g) {
+				c, ok := ci.(*ssa.Call)
+				if !ok {
+					out = append(out, ci.(ssa.Instruction))
+					continue
+				}
+				if g.Signature.Results().Len() == 1 {
+					out = append(out, usesThroughReturns(P, c, depth-1)...)
+					continue
+				}
+				for _, rr := range referrersOf(c) {
+					if ex, isEx := rr.(*ssa.Extract); isEx && ex.Index == k {
+						out = append(out, usesThroughReturns(P, ex, depth-1)...)
+					}
+				}
+			}
 		}
 	}
 	return out
